@@ -444,11 +444,15 @@ func (p *eparser) parsePrimary() (Expr, error) {
 			var vars []QVar
 			for {
 				n := p.next()
+				stars := ""
+				for p.accept("*") {
+					stars += "*"
+				}
 				ty := p.next()
 				if n.kind != "id" || ty.kind != "id" {
 					return nil, fmt.Errorf("bad quantifier variable")
 				}
-				tyname := ty.s
+				tyname := stars + ty.s
 				for p.accept(".") {
 					tt := p.next()
 					tyname += "." + tt.s
